@@ -1,14 +1,22 @@
 //! C05 — parsers are total: bad input gives an error, never a crash, hang or huge allocation.
 //! Engine A: deterministic structured mutation of valid seeds, judged in supervised workers
 //! with a tracking allocator and a CPU budget.
+//! Engine B: libFuzzer campaigns over the same `vcheck::targets::run_target` (crate /verif/fuzz,
+//! driver /verif/fuzz/run.sh); their artifacts come back as `Mutation::Raw` cases and are judged by
+//! the same worker and `judge()` (module `engb`).
+//!
+//! Extra command lines (besides `--tier`, `--replay`):
+//!   c05 --dump-seeds <dir>                    write every valid seed to <dir>/<format>/<name>
+//!   c05 --dump-input <replay.json> <out>      materialise the input of a replay file
+//!   c05 --classify <format> <artifact-file>…  judge raw inputs (libFuzzer artifacts) in the worker
 use serde::{Deserialize, Serialize};
 use serde_json::{json, Value};
-use std::io::Cursor;
 use vcheck::engine::supervise::{self, Outcome, Spec, TrackingAlloc};
 use vcheck::engine::{self, Check, Fail, Tier};
 use vcheck::gens::mpq::*;
 use vcheck::oracle::refcrypt as rc;
 
+mod engb;
 mod seeds;
 
 #[global_allocator]
@@ -30,6 +38,9 @@ enum Mutation {
     Havoc(u64),
     /// replace the whole input by seeded garbage of this length (keeps the first 4 bytes = magic)
     Garbage { len: usize, seed: u64, keep_magic: bool },
+    /// the input itself, hex-encoded, independent of any seed (`Case::seed` = usize::MAX): libFuzzer
+    /// artifacts of engine B are wrapped into this so that replay files stay self-contained
+    Raw { hex: String },
 }
 
 #[derive(Clone, Debug, Serialize, Deserialize)]
@@ -77,11 +88,28 @@ fn mpq_seeds() -> Vec<seeds::Seed> {
             out.push(s);
         }
     }
+    // one archive whose (attributes) file carries CRC32|PATCH_BIT: written by hand and handed to the builder
+    // as an external attributes file; the block count the reader will use (files + special files) is found
+    // by trial: the first count for which `load_attributes` accepts the archive
+    for n in [7usize, 6, 8, 5] {
+        let ap = dir.path().join("ext.attributes");
+        if std::fs::write(&ap, seeds::attrs::file(n, seeds::attrs::CRC32 | seeds::attrs::PATCH_BIT, 0x9A7C)).is_err() {
+            break;
+        }
+        let spec = ArchiveSpec { version: 1, shift: 0, crcs: false, attrs: Attrs::None, listfile: true, compress_tables: false, table_method: M_ZLIB, files: files(false) };
+        let p = dir.path().join("s.mpq");
+        if spec.builder().attributes_option(wow_mpq::AttributesOption::External(ap)).build(&p).is_err() {
+            continue;
+        }
+        let accepted = wow_mpq::Archive::open(&p).ok().map(|mut a| a.load_attributes().is_ok() && a.find_file("(attributes)").ok().flatten().is_some()).unwrap_or(false);
+        if accepted {
+            if let Ok(bytes) = std::fs::read(&p) {
+                out.push(seeds::Seed { format: "mpq", name: format!("v1-patchbit-attrs-n{n}"), bytes });
+            }
+            break;
+        }
+    }
     out
-}
-
-fn patch_base() -> Vec<u8> {
-    materialize(ContentClass::Text, 300, 42)
 }
 
 fn md5(b: &[u8]) -> [u8; 16] {
@@ -119,7 +147,7 @@ fn rle(data: &[u8]) -> Vec<u8> {
 }
 
 fn patch_seeds() -> Vec<seeds::Seed> {
-    let base = patch_base();
+    let base = vcheck::targets::patch_base();
     let new = materialize(ContentClass::Text, 420, 43);
     let copy = ptch(b"COPY", base.len() as u32, new.len() as u32, new.len() as u32, md5(&base), md5(&new), &new);
     // BSD0: two control blocks: add 200 (diff against base), extra 120, seek +10; add 100, extra 0, seek -5
@@ -334,6 +362,7 @@ fn apply(seed: &[u8], m: &Mutation) -> Vec<u8> {
                 }
             }
         }
+        Mutation::Raw { hex } => b = hex::decode(hex).unwrap_or_default(),
         Mutation::Garbage { len, seed, keep_magic } => {
             let mut s = *seed;
             let magic: Vec<u8> = b.iter().take(4).cloned().collect();
@@ -362,7 +391,11 @@ fn mutations_for(seed: &seeds::Seed, idx: usize, tier: Tier, rng_seed: u64) -> V
     let mut out = vec![Case { format: fmt.clone(), seed: idx, m: Mutation::None }];
     let quick = tier == Tier::Quick;
     // (i) prefixes
-    let pstride = if b.len() <= 4096 { if quick { 3 } else { 1 } } else if quick { b.len() / 300 + 1 } else { b.len() / 3000 + 1 };
+    // the (attributes) files are tiny and the parser has a deliberate "one byte short" tolerance: every
+    // truncation length is a case there, in both tiers
+    let pstride = if seed.format == "attributes" {
+        1
+    } else if b.len() <= 4096 { if quick { 3 } else { 1 } } else if quick { b.len() / 300 + 1 } else { b.len() / 3000 + 1 };
     let mut p = 0;
     while p < b.len() {
         out.push(Case { format: fmt.clone(), seed: idx, m: Mutation::Prefix(p) });
@@ -453,7 +486,14 @@ fn mutations_for(seed: &seeds::Seed, idx: usize, tier: Tier, rng_seed: u64) -> V
         }
     }
     // (iv) havoc + garbage
-    for h in 0..(if quick { 500 } else { 6000 }) {
+    // 160 tiny seeds in the attributes family: fewer havoc rounds per seed keep the family's share of the budget level
+    let havoc_rounds = match (seed.format, quick) {
+        ("attributes", true) => 100,
+        ("attributes", false) => 1500,
+        (_, true) => 500,
+        (_, false) => 6000,
+    };
+    for h in 0..havoc_rounds {
         out.push(Case { format: fmt.clone(), seed: idx, m: Mutation::Havoc(rng_seed ^ ((idx as u64) << 32) ^ h) });
     }
     for (gi, len) in [0usize, 1, 3, 4, 8, 20, 64, 100, 300, 4096].iter().enumerate() {
@@ -466,152 +506,8 @@ fn mutations_for(seed: &seeds::Seed, idx: usize, tier: Tier, rng_seed: u64) -> V
 
 // ---------------------------------------------------------------------------------- targets
 
-fn ek<E: std::fmt::Debug>(e: &E) -> String {
-    let s = format!("{e:?}");
-    let k: String = s.chars().take_while(|c| c.is_alphanumeric()).collect();
-    format!("err:{k}")
-}
-
-/// Run every public entry point of the format on `bytes`. Returns an outcome class
-/// ("ok" / "err:Kind" of the first stage). Panics propagate to the caller's guard.
-fn run_target(format: &str, bytes: &[u8], scratch: &std::path::Path) -> String {
-    match format {
-        "mpq" => {
-            let p = scratch.join("t.mpq");
-            std::fs::write(&p, bytes).unwrap();
-            let mut a = match wow_mpq::Archive::open(&p) {
-                Ok(a) => a,
-                Err(e) => return ek(&e),
-            };
-            let _ = a.get_info();
-            let listed = a.list().unwrap_or_default();
-            let all = a.list_all().unwrap_or_default();
-            let _ = a.list_with_hashes();
-            let _ = a.list_all_with_hashes();
-            let _ = a.load_attributes();
-            let _ = a.verify_signature();
-            let mut names: Vec<String> = listed.iter().take(24).map(|e| e.name.clone()).collect();
-            for n in ["(listfile)", "(attributes)", "(signature)", "d0\\f0.bin", "d1\\f1.bin", "d0\\f2.bin", "d1\\f3.bin", "d0\\f4.bin", "nope"] {
-                names.push(n.to_string());
-            }
-            for n in &names {
-                let _ = a.find_file(n);
-                let _ = a.read_file(n);
-            }
-            for e in all.iter().take(12).chain(listed.iter().take(6)) {
-                if let Some((h, b)) = e.table_indices {
-                    let _ = a.read_file_by_indices(h, b);
-                }
-            }
-            "ok".into()
-        }
-        "patch" => {
-            let pf = match wow_mpq::patch::PatchFile::parse(bytes) {
-                Ok(p) => p,
-                Err(e) => return ek(&e),
-            };
-            match wow_mpq::patch::apply_patch(&pf, &patch_base()) {
-                Ok(_) => "ok".into(),
-                Err(e) => format!("parsed;apply-{}", ek(&e)),
-            }
-        }
-        "decompress" => {
-            if bytes.len() < 3 {
-                return "err:short".into();
-            }
-            let want = u16::from_le_bytes([bytes[1], bytes[2]]) as usize;
-            match wow_mpq::compression::decompress(&bytes[3..], bytes[0], want) {
-                Ok(_) => "ok".into(),
-                Err(e) => ek(&e),
-            }
-        }
-        "m2" => match wow_m2::parse_m2(&mut Cursor::new(bytes)) {
-            Ok(_) => "ok".into(),
-            Err(e) => ek(&e),
-        },
-        "skin" => {
-            let r = wow_m2::parse_skin(&mut Cursor::new(bytes));
-            let _ = wow_m2::SkinFile::parse(&mut Cursor::new(bytes));
-            match r {
-                Ok(_) => "ok".into(),
-                Err(e) => ek(&e),
-            }
-        }
-        "anim" => match wow_m2::AnimFile::parse(&mut Cursor::new(bytes)) {
-            Ok(_) => "ok".into(),
-            Err(e) => ek(&e),
-        },
-        "adt" => match wow_adt::parse_adt(&mut Cursor::new(bytes)) {
-            Ok(_) => "ok".into(),
-            Err(e) => ek(&e),
-        },
-        "wmo_root" | "wmo_group" => {
-            let r = wow_wmo::parse_wmo(&mut Cursor::new(bytes));
-            let _ = wow_wmo::parse_wmo_with_metadata(&mut Cursor::new(bytes));
-            if format == "wmo_root" {
-                let _ = wow_wmo::WmoParser::new().parse_root(&mut Cursor::new(bytes));
-            } else {
-                let _ = wow_wmo::WmoGroupParser::new().parse_group(&mut Cursor::new(bytes), 0);
-            }
-            match r {
-                Ok(_) => "ok".into(),
-                Err(e) => ek(&e),
-            }
-        }
-        "blp" => {
-            let r = wow_blp::parser::parse_blp(bytes);
-            let _ = wow_blp::parser::load_blp_from_buf(bytes);
-            match r {
-                Ok(img) => {
-                    for i in 0..img.image_count().min(4) {
-                        let _ = wow_blp::convert::blp_to_image(&img, i);
-                    }
-                    "ok".into()
-                }
-                Err(e) => ek(&e),
-            }
-        }
-        "dbc" => {
-            let p = match wow_cdbc::DbcParser::parse_bytes(bytes) {
-                Ok(p) => p,
-                Err(e) => return ek(&e),
-            };
-            let r = p.parse_records();
-            // lazy and mmap paths
-            let path = scratch.join("t.dbc");
-            std::fs::write(&path, bytes).unwrap();
-            if let Ok(m) = wow_cdbc::MmapDbcFile::open(&path) {
-                let _ = m.parser().parse_records();
-            }
-            match r {
-                Ok(_) => "ok".into(),
-                Err(e) => format!("header-ok;records-{}", ek(&e)),
-            }
-        }
-        "wdt" => {
-            let mut first = String::new();
-            for v in [wow_wdt::version::WowVersion::Classic, wow_wdt::version::WowVersion::WotLK, wow_wdt::version::WowVersion::BfA] {
-                let r = wow_wdt::WdtReader::new(Cursor::new(bytes), v).read();
-                if first.is_empty() {
-                    first = match r {
-                        Ok(_) => "ok".into(),
-                        Err(e) => ek(&e),
-                    };
-                }
-            }
-            first
-        }
-        "wdl" => {
-            let r = wow_wdl::parser::WdlParser::new().parse(&mut Cursor::new(bytes));
-            let _ = wow_wdl::parser::WdlParser::with_version(wow_wdl::version::WdlVersion::Legion).parse(&mut Cursor::new(bytes));
-            match r {
-                Ok(_) => "ok".into(),
-                Err(e) => ek(&e),
-            }
-        }
-        other => format!("err:unknown-format-{other}"),
-    }
-}
+// `run_target` lives in the library (`vcheck::targets`): engine B (/verif/fuzz) drives the same function
+use vcheck::targets::run_target;
 
 // ----------------------------------------------------------------------------------- driver
 
@@ -627,10 +523,14 @@ fn worker() -> ! {
             Ok(c) => c,
             Err(e) => return json!({"class": format!("bad-case:{e}")}),
         };
-        let Some(seed) = seeds.get(c.seed) else {
-            return json!({"class": "bad-seed"});
+        let input = match (&c.m, seeds.get(c.seed)) {
+            (Mutation::Raw { hex }, _) => match hex::decode(hex) {
+                Ok(b) => b,
+                Err(e) => return json!({"class": format!("bad-case:hex:{e}")}),
+            },
+            (_, Some(seed)) => apply(&seed.bytes, &c.m),
+            (_, None) => return json!({"class": "bad-seed"}),
         };
-        let input = apply(&seed.bytes, &c.m);
         eprintln!("CASE {} {} len={}", c.format, c.seed, input.len());
         let single = (64usize << 20).max(256 * input.len());
         supervise::set_alloc_limits(single, 1 << 30);
@@ -674,19 +574,44 @@ fn main() {
         let v: Value = serde_json::from_str(&std::fs::read_to_string(&a[2]).expect("replay")).expect("json");
         let c: Case = serde_json::from_value(v["case"].clone()).expect("case");
         let seeds = all_seeds();
-        std::fs::write(&a[3], apply(&seeds[c.seed].bytes, &c.m)).expect("write");
-        println!("{} {} -> {}", c.format, seeds[c.seed].name, a[3]);
+        let (name, bytes) = match (&c.m, seeds.get(c.seed)) {
+            (Mutation::Raw { hex }, _) => ("raw".to_string(), hex::decode(hex).expect("hex")),
+            (_, Some(s)) => (s.name.clone(), apply(&s.bytes, &c.m)),
+            (_, None) => panic!("no seed {}", c.seed),
+        };
+        std::fs::write(&a[3], bytes).expect("write");
+        println!("{} {} -> {}", c.format, name, a[3]);
         return;
     }
-    let (check, _a) = Check::new("C05", "exploration");
+    // `c05 --dump-seeds <dir>`: write every valid seed to <dir>/<format>/<name> (seed corpus of engine B)
+    if std::env::args().nth(1).as_deref() == Some("--dump-seeds") {
+        let dir = std::path::PathBuf::from(std::env::args().nth(2).expect("usage: c05 --dump-seeds <dir>"));
+        let seeds = all_seeds();
+        for s in &seeds {
+            let d = dir.join(s.format);
+            std::fs::create_dir_all(&d).expect("mkdir");
+            let name: String = s.name.chars().map(|c| if c.is_ascii_alphanumeric() || "-_.".contains(c) { c } else { '_' }).collect();
+            std::fs::write(d.join(name), &s.bytes).expect("write seed");
+        }
+        println!("{} seeds -> {}", seeds.len(), dir.display());
+        return;
+    }
+    let (check, args) = Check::new("C05", "exploration");
     check.set_rule(
-        "valid seeds (7 MPQ archives V1..V4 with attributes/encryption/compressed tables, COPY and BSD0 patch files, compressed streams for 11 method bytes, and 3..10 files each for M2, skin, anim, ADT, WMO root/group, BLP, DBC, WDT, WDL built with the crates' own writers) × deterministic structured mutation: \
-         (i) prefixes (every length below 96, strided above, chunk boundaries ±1); (ii) boundary values {0, 1, 2^31−1, 2^31, 2^32−1, len−1, len, len+1, old±1, …} as u16/u32/u64 at aligned offsets of the head region and sampled offsets beyond, and inside decrypted hash/block/HET/BET tables of MPQ archives (decrypt → substitute → re-encrypt); \
+        "valid seeds (8 MPQ archives V1..V4 with attributes/encryption/compressed tables, one of them carrying a hand-written CRC32|PATCH_BIT (attributes) file; 160 hand-encoded (attributes) files = block counts {0,1,3,7,8,9,64} × all 16 flag sets plus the accepted one-byte-short patch-bit variants, given to Attributes::parse as [block_count u16][data] with every per-block accessor touched; \
+         9 (listfile) texts (LF, CRLF, `;`, BOM, empty lines/comments, 20 KB line, invalid UTF-8, NUL); COPY and BSD0 patch files, compressed streams for 11 method bytes, and 3..10 files each for M2, skin, anim, ADT, WMO root/group, BLP, DBC, WDT, WDL built with the crates' own writers) × deterministic structured mutation: \
+         (i) prefixes (every length below 96, strided above, chunk boundaries ±1; every length for (attributes) files, so 'ideal size − 1' and '− 2' with PATCH_BIT are hit by construction); (ii) boundary values {0, 1, 2^31−1, 2^31, 2^32−1, len−1, len, len+1, old±1, …} as u16/u32/u64 at aligned offsets of the head region and sampled offsets beyond, and inside decrypted hash/block/HET/BET tables of MPQ archives (decrypt → substitute → re-encrypt); \
          (iii) chunk delete / duplicate / swap / size ±1, ±8, 0xFFFFFFFF for chunked formats; (iv) seeded havoc (1–8 flips, inserts, deletes, block copies, boundary dwords) and garbage with/without the magic. Each case runs every public entry point of its format in a supervised worker with a tracking allocator \
-         (one request > max(64 MiB, 256×input) or live > 1 GiB ⇒ violation), a 10 CPU-second budget, and panic capture. non-trivial = the mutated input got past the first validation layer (result Ok, or an error after a first stage succeeded); distinct = format × mutator × outcome class",
+         (one request > max(64 MiB, 256×input) or live > 1 GiB ⇒ violation), a 10 CPU-second budget, and panic capture. non-trivial = the mutated input got past the first validation layer (result Ok, or an error after a first stage succeeded); distinct = format × mutator × outcome class. \
+         Engine B (when /verif/fuzz/run.sh exists and VERIF_C05_FUZZ != 0): one libFuzzer target per family calling the same entry points, two fixed-work campaigns each (seed corpus = the valid seeds above; empty corpus) with -len_control=0 -max_len=64 KiB (mpq 256 KiB) -timeout=10 -malloc_limit_mb=256 -rss_limit_mb=3072 and -seed derived from VERIF_SEED; \
+         quick = 15 k…400 k runs per campaign (smoke depth), thorough = 350 k…5 M; each campaign is one evaluated class `fuzz:<target>[:empty]:campaign`, non-trivial when libFuzzer reports > 50 covered edges; every artifact is one more evaluated case, judged by the same worker",
     );
     check.assume("results themselves are not judged (only: returns, no panic/abort/overflow/hang/huge allocation)");
-    check.assume("coverage-guided fuzzing (libFuzzer targets) complements this engine in the thorough tier when built; absence of crashes outside the explored inputs is not shown");
+    check.assume(
+        "engine B: libFuzzer (ASan build, release + debug assertions + overflow checks) is trusted only to *propose* inputs: every artifact is re-judged in engine A's worker (crash artifacts that do not fail there are re-run once under the sanitizer build of their target; an AddressSanitizer report or a panic there counts); \
+         libFuzzer's -malloc_limit_mb/-timeout artifacts that engine A's rules do not confirm are counted as fuzz-artifact-not-reproduced, not as violations; campaigns are fixed work but libFuzzer's corpus evolution is not guaranteed bit-reproducible; \
+         panics matching an open known finding are tolerated inside the targets and counted (fuzz:tolerated:*); absence of crashes outside the explored inputs is not shown",
+    );
 
     let seeds = all_seeds();
     let seed_dir = engine::scratch("c05seeds");
@@ -709,13 +634,28 @@ fn main() {
         check.count("replay-pad2", true);
         check.finish();
     }
+    // `c05 --classify <format> <artifact-file>…`: judge raw inputs (libFuzzer artifacts) like mutated seeds
+    if args.rest.first().map(|s| s.as_str()) == Some("--classify") {
+        let format = args.rest.get(1).cloned().unwrap_or_default();
+        if !vcheck::targets::FORMATS.contains(&format.as_str()) || args.rest.len() < 3 {
+            eprintln!("usage: c05 --classify <{}> <artifact-file>…", vcheck::targets::FORMATS.join("|"));
+            std::process::exit(2);
+        }
+        let arts: Vec<(String, std::path::PathBuf)> = args.rest[2..].iter().map(|p| (format.clone(), std::path::PathBuf::from(p))).collect();
+        preserve_evidence_file();
+        let recs = engb::classify(&check, &spec, &arts);
+        for r in &recs {
+            println!("{r}");
+        }
+        check.finish();
+    }
 
     let mut per_format: std::collections::BTreeMap<&str, usize> = Default::default();
     for s in &seeds {
         *per_format.entry(s.format).or_default() += 1;
     }
     check.set_extra("seeds_per_format", json!(per_format));
-    for f in ["mpq", "patch", "decompress", "m2", "skin", "anim", "adt", "wmo_root", "wmo_group", "blp", "dbc", "wdt", "wdl"] {
+    for f in vcheck::targets::FORMATS {
         if per_format.get(f).copied().unwrap_or(0) == 0 {
             check.inconclusive(&format!("no seed for format {f}"));
         }
@@ -736,6 +676,7 @@ fn main() {
             Mutation::ChunkSize { .. } => "chunk-size",
             Mutation::Havoc(_) => "havoc",
             Mutation::Garbage { .. } => "garbage",
+            Mutation::Raw { .. } => "raw",
         };
         match judge(c, o) {
             Ok(class) => {
@@ -754,7 +695,38 @@ fn main() {
             }
         }
     }
+    // engine B: coverage-guided campaigns over the same targets; artifacts are judged by the worker above
+    if engb::enabled() {
+        engb::run(&check, &spec);
+    } else {
+        check.bump("fuzz:engine-b-skipped", 1);
+    }
     check.finish();
+}
+
+/// `--classify` is a side entrance: it must not replace the evidence of the last full run. `Check::finish`
+/// always writes evidence/C05.json, so the previous content is put back when the process exits.
+fn preserve_evidence_file() {
+    static SAVED: std::sync::OnceLock<(std::path::PathBuf, Option<Vec<u8>>)> = std::sync::OnceLock::new();
+    extern "C" fn restore() {
+        if let Some((p, old)) = SAVED.get() {
+            match old {
+                Some(b) => {
+                    let _ = std::fs::write(p, b);
+                }
+                None => {
+                    let _ = std::fs::remove_file(p);
+                }
+            }
+        }
+    }
+    let p = engine::verif_root().join("evidence").join("C05.json");
+    let old = std::fs::read(&p).ok();
+    if SAVED.set((p, old)).is_ok() {
+        unsafe {
+            libc::atexit(restore);
+        }
+    }
 }
 
 fn judge(c: &Case, o: &Outcome) -> Result<String, Fail> {
@@ -767,11 +739,7 @@ fn judge(c: &Case, o: &Outcome) -> Result<String, Fail> {
                 // not the entry point, so the signature leads with the site: `panic:<file>:<message>@<format>`
                 // (one known-finding entry `panic:dep:<crate>/*` then covers a dependency that panics on
                 // untrusted data whatever the entry point)
-                let raw = v["sig"].as_str().unwrap_or("?");
-                let sig = match raw.strip_prefix("panic@").and_then(|r| r.split_once(':')) {
-                    Some((fmt, site)) => format!("panic:{site}@{fmt}"),
-                    None => raw.to_string(),
-                };
+                let sig = vcheck::targets::c05_panic_signature(v["sig"].as_str().unwrap_or("?"));
                 Err(Fail::new(sig, format!("{} (input {} bytes)", v["msg"].as_str().unwrap_or(""), v["len"])))
             }
         }
